@@ -4,9 +4,22 @@ pub mod alloc;
 pub mod catalog;
 pub mod core;
 pub mod exec;
+pub mod fuzzdec;
 pub mod gen;
 pub mod props;
 pub mod q;
 pub mod refs;
 pub mod refs_ehlers;
 pub mod runner;
+
+/// used by the fuzz targets: is this failure signature listed in /verif/KNOWN_FINDINGS.txt (loaded once)?
+pub fn fuzzdec_known(sig: &str) -> bool {
+    use std::sync::OnceLock;
+    static KF: OnceLock<runner::KnownFindings> = OnceLock::new();
+    let kf = KF.get_or_init(|| {
+        let dir = std::env::var("VERIF_DIR").unwrap_or_else(|_| "/verif".into());
+        runner::KnownFindings::load(&std::path::Path::new(&dir).join("KNOWN_FINDINGS.txt"))
+    });
+    let prop = sig.split(|c| c == '/' || c == '|').next().unwrap_or("");
+    kf.matching(prop, sig).is_some()
+}
